@@ -21,7 +21,12 @@ func (list *List[T]) ToJSON() ([]byte, error) {
 
 // FromJSON populates list's elements from the input JSON representation.
 func (list *List[T]) FromJSON(data []byte) error {
-	err := json.Unmarshal(data, &list.elements)
+	var elements []T
+	err := json.Unmarshal(data, &elements)
+	if err == nil {
+		list.Clear()
+		list.Add(elements...)
+	}
 	return err
 }
 
